@@ -116,31 +116,59 @@ class lb_update_pref_col:
     modifies = ("pref_col",)
 
 
-@contract(LBX + "ListBox.shift_focus", property="C08", replayable=False)
+def _shift_stored(old, s, a, tgt_rows):
+    """What shift_focus stores: an offset >= 0 as it is, with no inset; an inset -offset_inset > 0 as the fraction of
+    the focus widget's rows (with focus) it is of -- either way a scroll state that satisfies `lb_ok`."""
+    oi = a.offset_inset
+    return ite(oi >= 0, both(s.offset_rows == oi, s.inset_fraction[0] == 0, s.inset_fraction[1] == 1),
+               both(s.offset_rows == 0, s.inset_fraction[0] == -oi, s.inset_fraction[1] == tgt_rows))
+
+
+def _shift_refused(a, tgt_rows):
+    """The offset would put the focus widget outside the box: on or below the last row, or wholly above the top."""
+    oi = a.offset_inset
+    return ite(oi >= 0, oi >= a.size[1], oi + tgt_rows <= 0)
+
+
+def _focus_rows(s, a, when):
+    w = val(walker_focus(s, when)[0])
+    return PROTOCOLS["Widget"].call_quiet(cur(), w, "rows", dict(size=(a.size[0],), focus=True))
+
+
+@contract(LBX + "ListBox.shift_focus", property=("C08", "C07"), replayable=False)
 class lb_shift_focus:
     self_shape = LISTBOX
     params = dict(size=Tup(Int, Int), offset_inset=Int)
     raises = (_lbmod.ListBoxError,)
     modifies = ("offset_rows", "inset_fraction")
+    # raises exactly when the focus widget would have no row inside the box (both directions are clauses below)
+    raises_iff = {_lbmod.ListBoxError: lambda s, a: _shift_refused(a, _focus_rows(s, a, "now"))}
 
     def requires(s, a):
-        return neg(mk_bool(walker_focus(s)[0].isnone))
+        return both(neg(mk_bool(walker_focus(s)[0].isnone)), a.size[0] >= 0)
 
     def ensures(old, s, a, result):
+        rows = _focus_rows(old, a, "entry")
         yield "moves-no-focus", walker_focus(s, "exit")[1] == walker_focus(old, "entry")[1]
         yield "invalidated", count_ev(s.trace, "_invalidate") == 1
-        yield "offset-stored", implies(a.offset_inset >= 0, both(s.offset_rows == a.offset_inset, s.inset_fraction[0] == 0, s.inset_fraction[1] == 1))
+        yield "offset-or-inset-stored", _shift_stored(old, s, a, rows)
+        yield "a-focus-row-inside-the-box", neg(_shift_refused(a, rows))
+        yield "scroll-state-sane", lb_ok(s)
 
     def ensures_callee(old, s, a, result):
         # (the walker is not touched: nothing to say about it at a call site)
-        yield "offset-stored", implies(a.offset_inset >= 0, both(s.offset_rows == a.offset_inset, s.inset_fraction[0] == 0, s.inset_fraction[1] == 1))
+        rows = _focus_rows(old, a, "now")
+        yield "offset-or-inset-stored", _shift_stored(old, s, a, rows)
+        yield "a-focus-row-inside-the-box", neg(_shift_refused(a, rows))
+        yield "scroll-state-sane", lb_ok(s)
 
     def on_raise(old, s, a, exc):
-        yield "only-for-an-offset-outside-the-box-or-the-widget", either(a.offset_inset >= a.size[1], a.offset_inset < 0)
+        yield "only-for-an-offset-outside-the-box-or-the-widget", _shift_refused(a, _focus_rows(old, a, "entry"))
+        yield "nothing-stored", both(s.offset_rows == old.offset_rows, s.inset_fraction[0] == old.inset_fraction[0], s.inset_fraction[1] == old.inset_fraction[1], count_ev(s.trace, "_invalidate") == 0)
         yield "moves-no-focus", walker_focus(s, "now")[1] == walker_focus(old, "entry")[1]
 
     def on_raise_callee(old, s, a, exc):
-        yield "only-for-an-offset-outside-the-box-or-the-widget", either(a.offset_inset >= a.size[1], a.offset_inset < 0)
+        yield "only-for-an-offset-outside-the-box-or-the-widget", _shift_refused(a, _focus_rows(old, a, "now"))
 
 
 CURSOR_ARG = Union(Const(None), Tup(Int), Tup(Int, Int))
